@@ -1074,8 +1074,26 @@ def _ramp_eval(e, r, du, at, depth=0):
             return a * b
         if isinstance(e.op, ast.Div):
             return a / b
+    if isinstance(e, ast.Subscript) and isinstance(e.value, ast.Call) and call_name(e.value) == "__setitem" and len(e.value.args) == 3 and norm(e.value.args[1]) == norm(e.slice):
+        return rec(e.value.args[2])      # x[k] right after x[k] = v
     if isinstance(e, ast.Call):
         nm = call_name(e)
+        if nm in ("int",) and len(e.args) == 1:
+            return rec(e.args[0])
+        if nm == "angle" and e.args and du is not None:
+            # angle(rfft(IMP)) with IMP = zeros(n); np.put(IMP, 1, 1): the phase of a one-sample delay, bin k of an n-point rfft has angle -2*pi*k/n
+            a0 = expand_name(du, e.args[0], at)
+            if isinstance(a0, ast.Call) and call_name(a0) == "rfft" and a0.args and isinstance(a0.args[0], ast.Name):
+                imp = a0.args[0].id
+                zd = [d for d in du.defs if d.var == imp and d.kind == "assign" and isinstance(d.value, ast.Call) and call_name(d.value) == "zeros" and d.value.args]
+                puts = [c for c in find(du.fn, ast.Call) if call_name(c) == "put" and len(c.args) >= 3 and loc_name(c.args[0]) == imp
+                        and const_value(c.args[1]) == (True, 1) and const_value(c.args[2]) == (True, 1)]
+                n_r = kwarg(a0, "n") or (a0.args[1] if len(a0.args) > 1 else None)
+                if len(zd) == 1 and puts and n_r is None and not isinstance(zd[0].value.args[0], (ast.Tuple, ast.List)):
+                    n = rec(zd[0].value.args[0])
+                    if not n.same(_Rat(N)):
+                        raise Undecided(f"impulse of {n} samples, not ns")
+                    return _Rat(Poly.const(-2) * Poly.sym("PI") * K) / n
         if nm in ("reshape", "astype", "copy") and isinstance(e.func, ast.Attribute) and not (isinstance(e.func.value, ast.Name) and e.func.value.id in ("np", "numpy")):
             return rec(e.func.value)
         if nm in _WRAP + ("reshape", "float", "expand_dims") and e.args:
